@@ -192,7 +192,8 @@ class Gen:
                     out.append(f(r.choice((self.text(0.3), r.choice((1.0, 2.5, 12.0, -3.0))))))
             return out
         if name == 'TEXTJOIN':
-            out = [f(r.choice((',', '-', '', ', ', 1.0))), f(r.choice((True, False, 1.0, 0.0)))]
+            out = [f(r.choice((',', '-', '', ', ', 1.0, sh.EMPTY))),
+                   f(r.choice((True, False, 1.0, 0.0)))]
             for _ in range(r.randint(1, 3)):
                 if r.random() < 0.4:
                     out.append(self.rng('nttB', 0.04))
